@@ -294,6 +294,39 @@ func concatHexFiles(files map[string]string) []byte {
 
 var entryLine = regexp.MustCompile(`(?m)^Frame length \d+ bytes:$`)
 
+// entryLengths returns the frame lengths announced by the entries of a readable log, in order.
+func entryLengths(text string) []int {
+	var out []int
+	for _, l := range entryLine.FindAllString(text, -1) {
+		n := 0
+		fmt.Sscanf(l, "Frame length %d bytes:", &n)
+		out = append(out, n)
+	}
+	return out
+}
+
+// deliveredLengths returns the lengths of the messages sequential framing delivers for the input.
+func deliveredLengths(input []byte) []int {
+	var out []int
+	for _, m := range runSequential(fixedStart, slog.LevelDebug, input) {
+		out = append(out, len(m.RawData))
+	}
+	return out
+}
+
+// sameInts compares two sequences and describes the first difference.
+func sameInts(got, want []int) string {
+	for i := 0; i < len(got) && i < len(want); i++ {
+		if got[i] != want[i] {
+			return fmt.Sprintf("entry %d describes a %d-byte message, message %d delivered has %d bytes", i, got[i], i, want[i])
+		}
+	}
+	if len(got) != len(want) {
+		return fmt.Sprintf("%d entries, %d messages delivered", len(got), len(want))
+	}
+	return ""
+}
+
 // ---- expectations (same build, sequential)
 
 // filterExpected is the concatenation of the valid frames of the input, in order:
@@ -663,6 +696,10 @@ func monC10(c *child.Ctx, replay json.RawMessage) {
 				c.Violate("display-log-entries", fmt.Sprintf("the readable log has %d entries; %d messages were delivered", entries, nmsgs), cj)
 				return
 			}
+			if why := sameInts(entryLengths(text), deliveredLengths(input)); why != "" {
+				c.Violate("display-log-entries", "the readable log does not have one entry per delivered message in order: "+why, cj)
+				return
+			}
 			c.Count("display_logs_checked", 1)
 		}
 		c.Count("filter_outputs_checked", 1)
@@ -800,6 +837,8 @@ func monC10(c *child.Ctx, replay json.RawMessage) {
 				txt, _ := concatFiles(res.Files, "rtcm.", ".txt")
 				if entries := len(entryLine.FindAllString(string(txt), -1)); entries != nmsgs {
 					c.Violate("display-log-entries", fmt.Sprintf("after the process ended the readable log has %d entries; %d messages were delivered", entries, nmsgs), cj)
+				} else if why := sameInts(entryLengths(string(txt)), deliveredLengths(in)); why != "" {
+					c.Violate("display-log-entries", "after the process ended the readable log does not have one entry per delivered message in order: "+why, cj)
 				} else {
 					c.Count("display_logs_checked", 1)
 				}
